@@ -235,15 +235,25 @@ fn gen(rng: &mut Rng, i: u64) -> String {
 		}
 		}
 	};
+	// one case in four goes through matches_code / finds_code: the range is then written into the header as
+	// BaseOfCode / SizeOfCode (Headers::code_range = BaseOfCode .. BaseOfCode.wrapping_add(SizeOfCode)) and must give
+	// exactly what matches(pat, rstart..rend) / finds(pat, rstart..rend) give
+	let code = rng.chance(1, 4) && spec.opt_size as usize >= 24;
+	let mut img = img;
+	if code {
+		let o = spec.e_lfanew as usize + 24;
+		img.pokes.push((o + 20, rstart.to_le_bytes().to_vec()));
+		img.pokes.push((o + 4, rend.wrapping_sub(rstart).to_le_bytes().to_vec()));
+	}
 	let save_len = pelite::pattern::save_len(&atoms);
 	let slots = match rng.below(8) { 0 => 0, 1 => 1, 2 => save_len + 2, _ => save_len.max(1) };
 	let maxn = *rng.pick(&[3u32, 8, 40, 40, 40]);
 	// sweep windows for the exec oracle
 	let mut wins: Vec<String> = vec![format!("0:{}", (len as u32).min(0x4000))];
 	for s in &secs { wins.push(format!("{}:{}", s.va, (s.va as u64 + (s.vs.max(s.srd) as u64).min(0x1000) + 0x20).min(0xFFFF_FFFF))); }
-	format!("scan fmt={} file={} wrap={} {} soh={} soi={} base={} secs={} atoms={} rstart={} rend={} slots={} maxn={} wins={}",
+	format!("scan fmt={} file={} wrap={} {} soh={} soi={} base={} secs={} atoms={} rstart={} rend={} slots={} maxn={} wins={} code={}",
 		if pe64 { 64 } else { 32 }, file as u8, wrap as u8, img.encode(), spec.soh, spec.soi, spec.image_base, secs_field(&spec.secs),
-		atoms_text(&atoms), rstart, rend, slots, maxn, wins.join(";"))
+		atoms_text(&atoms), rstart, rend, slots, maxn, wins.join(";"), code as u8)
 }
 
 // ---------------------------------------------------------------- implementation side
@@ -251,14 +261,14 @@ fn gen(rng: &mut Rng, i: u64) -> String {
 fn saves(s: &[u32]) -> String { join(s, ",") }
 
 macro_rules! observe {
-	($scanner:expr, $atoms:expr, $rstart:expr, $rend:expr, $slots:expr, $maxn:expr, $sweep:expr) => {{
+	($scanner:expr, $atoms:expr, $rstart:expr, $rend:expr, $slots:expr, $maxn:expr, $sweep:expr, $code:expr) => {{
 		let scanner = $scanner;
 		let atoms: &[Atom] = $atoms;
 		let mut out = String::new();
 		// 1. the iteration
 		let mut recs: Vec<String> = Vec::new();
 		let mut save = vec![FILL; $slots];
-		let mut matches = scanner.matches(atoms, $rstart..$rend);
+		let mut matches = if $code { scanner.matches_code(atoms) } else { scanner.matches(atoms, $rstart..$rend) };
 		let mut falses = 0;
 		for _ in 0..$maxn {
 			let ok = matches.next(&mut save);
@@ -275,7 +285,7 @@ macro_rules! observe {
 		out.push_str(&format!("m={} end={}", recs.join("/"), matches.range().end));
 		// 2. finds
 		let mut save2 = vec![FILL; $slots];
-		let f = scanner.finds(atoms, $rstart..$rend, &mut save2);
+		let f = if $code { scanner.finds_code(atoms, &mut save2) } else { scanner.finds(atoms, $rstart..$rend, &mut save2) };
 		out.push_str(&format!(" finds={}:{}", f as u8, saves(&save2)));
 		// 3. the exec oracle
 		let mut xs: Vec<u32> = Vec::new();
@@ -317,13 +327,14 @@ fn run(case: &str) -> String {
 	let file = field(case, "file") == "1";
 	let wrap = field(case, "wrap") == "1";
 	let sweep = sweep_positions(case, rstart, rend);
+	let code = case.contains(" code=1");
 	let r: Result<String, pelite::Error> = match (wrap, field(case, "fmt"), file) {
-		(true, _, true) => pelite::PeFile::from_bytes(b).map(|f| observe!(f.scanner(), &atoms, rstart, rend, slots, maxn, sweep.iter().cloned())),
-		(true, _, false) => pelite::PeView::from_bytes(b).map(|f| observe!(f.scanner(), &atoms, rstart, rend, slots, maxn, sweep.iter().cloned())),
-		(false, "32", true) => { use pe32::Pe; pe32::PeFile::from_bytes(b).map(|f| observe!(f.scanner(), &atoms, rstart, rend, slots, maxn, sweep.iter().cloned())) },
-		(false, "32", false) => { use pe32::Pe; pe32::PeView::from_bytes(b).map(|f| observe!(f.scanner(), &atoms, rstart, rend, slots, maxn, sweep.iter().cloned())) },
-		(false, _, true) => { use pe64::Pe; pe64::PeFile::from_bytes(b).map(|f| observe!(f.scanner(), &atoms, rstart, rend, slots, maxn, sweep.iter().cloned())) },
-		(false, _, false) => { use pe64::Pe; pe64::PeView::from_bytes(b).map(|f| observe!(f.scanner(), &atoms, rstart, rend, slots, maxn, sweep.iter().cloned())) },
+		(true, _, true) => pelite::PeFile::from_bytes(b).map(|f| observe!(f.scanner(), &atoms, rstart, rend, slots, maxn, sweep.iter().cloned(), code)),
+		(true, _, false) => pelite::PeView::from_bytes(b).map(|f| observe!(f.scanner(), &atoms, rstart, rend, slots, maxn, sweep.iter().cloned(), code)),
+		(false, "32", true) => { use pe32::Pe; pe32::PeFile::from_bytes(b).map(|f| observe!(f.scanner(), &atoms, rstart, rend, slots, maxn, sweep.iter().cloned(), code)) },
+		(false, "32", false) => { use pe32::Pe; pe32::PeView::from_bytes(b).map(|f| observe!(f.scanner(), &atoms, rstart, rend, slots, maxn, sweep.iter().cloned(), code)) },
+		(false, _, true) => { use pe64::Pe; pe64::PeFile::from_bytes(b).map(|f| observe!(f.scanner(), &atoms, rstart, rend, slots, maxn, sweep.iter().cloned(), code)) },
+		(false, _, false) => { use pe64::Pe; pe64::PeView::from_bytes(b).map(|f| observe!(f.scanner(), &atoms, rstart, rend, slots, maxn, sweep.iter().cloned(), code)) },
 	};
 	match r {
 		Ok(s) => s,
